@@ -4,94 +4,80 @@ import CV.Proofs.HuffKraft
 -/
 namespace CV.Huff
 
-theorem addW_error {wb : Option Nat} {x y : Nat} {f : Fault} (h : addW wb x y = .error f) :
-    ∀ site, f ≠ .ub site := by
-  intro site
-  cases wb with
-  | none => simp [addW] at h
-  | some k =>
-    simp only [addW, cadd] at h
-    split at h
-    · simp at h
-    · simp at h; subst h; simp
-
-theorem cadd_cases (site : String) (n a b : Nat) :
-    cadd site n a b = .ok (a + b) ∨ cadd site n a b = .error (.overflow site) := by
-  simp only [cadd]; split <;> simp
+section
+variable {α : Type} (ops : WeightOps α)
 
 /-- `get_unchecked_mut(index0 / index1)` in the encoder constructor is in bounds for every
-input, also when the weight sum overflows (then the loop stops with a panic before indexing) -/
-theorem encLoop_no_ub (wb : Option Nat) : ∀ (fuel : Nat) (heap : List (Nat × Nat)) (arr : List Nat)
+input and every weight type, also when an addition panics (then the loop stops before indexing) -/
+theorem encLoop_no_ub : ∀ (fuel : Nat) (heap : List (α × Nat)) (arr : List Nat)
     (next : Nat), HeapOK heap next → fuel = heap.length → next + heap.length ≤ arr.length + 1 →
-    ∀ site, encLoop wb fuel heap arr next ≠ .error (.ub site)
+    ∀ site, encLoop ops fuel heap arr next ≠ .error (.ub site)
   | 0, _, _, _, _, _, _, site => by simp [encLoop]
   | fuel + 1, heap, arr, next, hok, hf, hlen, site => by
-    cases e1 : popMin heap with
+    cases e1 : popMin ops heap with
     | none => simp [encLoop, e1]
     | some ah =>
       obtain ⟨a, h1⟩ := ah
-      cases e2 : popMin h1 with
+      cases e2 : popMin ops h1 with
       | none => simp [encLoop, e1, e2]
       | some bh =>
         obtain ⟨b, h2⟩ := bh
-        obtain ⟨ha, hb, hab, ha2, hb2, hl, hok'⟩ := pop2_facts hok e1 e2 (a.1 + b.1)
-        cases hadd : addW wb a.1 b.1 with
+        cases hadd : addPush ops a.1 b.1 h2 with
         | error f =>
           simp only [encLoop, e1, e2, hadd]
-          intro h; injection h with h; exact addW_error hadd site h
+          intro h; injection h with h; exact addPush_error ops hadd site h
         | ok w =>
+          obtain ⟨ha, hb, hab, ha2, hb2, hl, hok'⟩ := pop2_facts hok e1 e2 w
           have haL : a.2 < arr.length := by omega
           have hbL : b.2 < (arr.set a.2 ((next <<< 1) % 2^64)).length := by simp; omega
           rcases cadd_cases "huff.enc.next" 64 next 1 with hc | hc
           · simp only [encLoop, e1, e2, hadd, haL, hbL, if_true, hc]
-            have hok'' : HeapOK ((w, next) :: h2) (next + 1) := by
-              have := hok'
-              unfold HeapOK at this ⊢
-              simpa using this
-            exact encLoop_no_ub wb fuel ((w, next) :: h2) _ (next + 1) hok''
+            exact encLoop_no_ub fuel ((w, next) :: h2) _ (next + 1) hok'
               (by simp; omega) (by simp; omega) site
           · have hbL' : b.2 < arr.length := by omega
             simp [encLoop, e1, e2, hadd, haL, hbL', hc]
 
-theorem encTree_no_ub (wb : Option Nat) (ws : List Nat) (site : String) :
-    encTree wb ws ≠ .error (.ub site) := by
+theorem encTree_no_ub (ws : List α) (site : String) :
+    encTree ops ws ≠ .error (.ub site) := by
   simp only [encTree]
   split
   · simp
   · next h =>
     have hlen : ws.zipIdx.length = ws.length := by simp
-    exact encLoop_no_ub wb _ _ _ _ (by rw [hlen]; exact heapOK_zipIdx ws) rfl
+    exact encLoop_no_ub ops _ _ _ _ (by rw [hlen]; exact heapOK_zipIdx ws) rfl
       (by simp; omega) site
 
 /-- the decoder constructor has no unsafe block; it never returns a `ub` fault -/
-theorem decLoop_no_ub (wb : Option Nat) : ∀ (fuel : Nat) (heap acc : List (Nat × Nat)) (next : Nat)
-    (site : String), decLoop wb fuel heap acc next ≠ .error (.ub site)
+theorem decLoop_no_ub : ∀ (fuel : Nat) (heap : List (α × Nat)) (acc : List (Nat × Nat))
+    (next : Nat) (site : String), decLoop ops fuel heap acc next ≠ .error (.ub site)
   | 0, _, _, _, site => by simp [decLoop]
   | fuel + 1, heap, acc, next, site => by
-    cases e1 : popMin heap with
+    cases e1 : popMin ops heap with
     | none => simp [decLoop, e1]
     | some ah =>
       obtain ⟨a, h1⟩ := ah
-      cases e2 : popMin h1 with
+      cases e2 : popMin ops h1 with
       | none => simp [decLoop, e1, e2]
       | some bh =>
         obtain ⟨b, h2⟩ := bh
-        cases hadd : addW wb a.1 b.1 with
+        cases hadd : addPush ops a.1 b.1 h2 with
         | error f =>
           simp only [decLoop, e1, e2, hadd]
-          intro h; injection h with h; exact addW_error hadd site h
+          intro h; injection h with h; exact addPush_error ops hadd site h
         | ok w =>
           rcases cadd_cases "huff.dec.next" 64 next 1 with hc | hc
           · simp only [decLoop, e1, e2, hadd, hc]
-            exact decLoop_no_ub wb fuel _ _ _ site
+            exact decLoop_no_ub fuel _ _ _ site
           · simp [decLoop, e1, e2, hadd, hc]
 
-theorem decTree_no_ub (wb : Option Nat) (ws : List Nat) (site : String) :
-    decTree wb ws ≠ .error (.ub site) := by
+theorem decTree_no_ub (ws : List α) (site : String) :
+    decTree ops ws ≠ .error (.ub site) := by
   simp only [decTree]
   split
   · simp
-  · exact decLoop_no_ub wb _ _ _ _ site
+  · exact decLoop_no_ub ops _ _ _ _ site
+
+end
 
 /-- decoding an arbitrary source from any vertex of the tree: a leaf of that subtree and the
 unconsumed rest, or the source ran out / failed.  Never an unchecked index out of bounds. -/
